@@ -9,6 +9,7 @@ import Mathlib.Tactic.Linarith
 import Mathlib.Algebra.BigOperators.Group.List.Basic
 import Mathlib.Algebra.BigOperators.Ring.List
 import Mathlib.Tactic.SplitIfs
+import Mathlib.Algebra.Star.Basic
 /-!
 # C01 — results do not depend on the storage format
 
@@ -1555,6 +1556,305 @@ example : KetWF (R := Int) { rows := 3, cols := 1, diags := [(0, fun _ => 2), (-
   simp only [List.mem_cons, List.not_mem_nil, or_false] at hd
   rcases hd with rfl | rfl <;> simp
 end diaInnerThm
+
+section diaHermThm
+variable {R : Type} [CommRing R] [StarRing R] [DecidableEq R]
+
+/-- the kernel's comparisons with the tolerance taken to zero -/
+def exactConjEq (a b : R) : Bool := decide (a = star b)
+def exactIsZero (a : R) : Bool := decide (a = 0)
+
+/-- square, distinct stored offsets, every stored diagonal inside the matrix -/
+def Dia.SquareWF (m : Dia R) : Prop :=
+  m.rows = m.cols ∧ (m.diags.map (·.1)).Nodup ∧ ∀ d ∈ m.diags, -(m.rows : Int) < d.1 ∧ d.1 < (m.rows : Int)
+
+theorem find?_reverse_nodup (l : List (Int × (Nat → R))) (h : (l.map (·.1)).Nodup) (o : Int) :
+    l.reverse.find? (fun d => d.1 == o) = l.find? (fun d => d.1 == o) := by
+  induction l with
+  | nil => rfl
+  | cons x t ih =>
+    rw [List.map_cons, List.nodup_cons] at h
+    rw [List.reverse_cons, List.find?_append, ih h.2]
+    by_cases hx : x.1 = o
+    · have hnone : t.find? (fun d => d.1 == o) = none := by
+        rw [List.find?_eq_none]
+        intro y hy hyo
+        have : y.1 = o := by simpa using hyo
+        exact h.1 (List.mem_map.mpr ⟨y, hy, by rw [this, hx]⟩)
+      simp [hnone, hx]
+    · simp [hx]
+
+/-- the meaning of a diagonal-format matrix through the stored diagonal of the right offset -/
+theorem Dia.abs_find (m : Dia R) (h : (m.diags.map (·.1)).Nodup) (i j : Nat) :
+    m.abs i j = match m.diags.find? (fun d => d.1 == (j : Int) - (i : Int)) with
+      | some d => d.2 j
+      | none => 0 := by
+  unfold Dia.abs
+  rw [find?_reverse_nodup m.diags h]
+  rfl
+
+theorem find?_of_mem_nodup (l : List (Int × (Nat → R))) (h : (l.map (·.1)).Nodup) (d : Int × (Nat → R))
+    (hd : d ∈ l) (o : Int) (ho : d.1 = o) : l.find? (fun e => e.1 == o) = some d := by
+  induction l with
+  | nil => cases hd
+  | cons x t ih =>
+    rw [List.map_cons, List.nodup_cons] at h
+    rcases List.mem_cons.mp hd with rfl | hmem
+    · simp [ho]
+    · have hx : x.1 ≠ o := by
+        intro hxo
+        exact h.1 (List.mem_map.mpr ⟨d, hmem, by rw [ho, hxo]⟩)
+      have hb : (x.1 == o) = false := by simpa using hx
+      rw [List.find?_cons, hb]
+      exact ih h.2 hmem
+
+/-- what a successful check of the stored diagonal `d` (number `di`, offset ≠ 0) says about its entries -/
+theorem diagOk_spec (m : Dia R) (hwf : m.SquareWF) (di : Nat) (d : Int × (Nat → R)) (hd : m.diags[di]? = some d)
+    (ho : d.1 ≠ 0) (hok : diagOk exactConjEq exactIsZero m di d = true) (j : Nat) (hj : j < m.rows)
+    (hi0 : 0 ≤ (j : Int) - d.1) (hi1 : (j : Int) - d.1 < m.rows) :
+    (m.diags.find? (fun e => e.1 == -d.1) = none → d.2 j = 0) ∧
+    (∀ e ei, m.diags[ei]? = some e → e.1 = -d.1 → di < ei → d.2 j = star (e.2 ((j : Int) - d.1).toNat)) := by
+  obtain ⟨hsq, hnd, hrg⟩ := hwf
+  have hfun : (fun (e : Int × (Nat → R)) => d.1 == -e.1) = (fun e => e.1 == -d.1) := by
+    funext e
+    by_cases h : e.1 = -d.1
+    · have h2 : d.1 = -e.1 := by omega
+      rw [beq_iff_eq.mpr h2, beq_iff_eq.mpr h]
+    · have h2 : d.1 ≠ -e.1 := by omega
+      rw [beq_eq_false_iff_ne.mpr h2, beq_eq_false_iff_ne.mpr h]
+  unfold diagOk at hok
+  simp only [ho, if_false, hfun] at hok
+  -- the column `j` is inside the range the loop runs over
+  have hstart : (max 0 d.1).toNat ≤ j := by omega
+  have hlen : j - (max 0 d.1).toNat < (min (m.cols : Int) ((m.rows : Int) + d.1)).toNat - (max 0 d.1).toNat := by
+    have : (m.rows : Int) = m.cols := by exact_mod_cast hsq
+    omega
+  have hcol : j - (max 0 d.1).toNat + (max 0 d.1).toNat = j := by omega
+  constructor
+  · intro hnone
+    have hany : (m.diags.take di).any (fun e => e.1 == -d.1) = false := by
+      rw [List.any_eq_false]
+      intro e he
+      have := List.find?_eq_none.mp hnone e (List.mem_of_mem_take he)
+      simpa using this
+    simp only [hany, Bool.false_eq_true, if_false, hnone] at hok
+    have := List.all_eq_true.mp hok (j - (max 0 d.1).toNat) (List.mem_range.mpr hlen)
+    rw [hcol] at this
+    simpa [exactIsZero] using this
+  · intro e ei he heo hlt
+    have hmem : e ∈ m.diags := List.mem_of_getElem? he
+    have hfind := find?_of_mem_nodup m.diags hnd e hmem (-d.1) heo
+    have hany : (m.diags.take di).any (fun x => x.1 == -d.1) = false := by
+      rw [List.any_eq_false]
+      intro x hx hxo
+      have hxo' : x.1 = -d.1 := by simpa using hxo
+      -- x sits at an index < di and carries the offset of e, which sits at ei > di
+      obtain ⟨k, hk, hxk⟩ := List.getElem_of_mem hx
+      have hk' : k < di := by
+        have := List.length_take_le di m.diags
+        omega
+      have hxk' : m.diags[k]? = some x := by
+        rw [List.getElem_take] at hxk
+        have hkl : k < m.diags.length := by
+          have := List.length_take_le' di m.diags
+          omega
+        rw [List.getElem?_eq_getElem hkl, hxk]
+      have hxe : x = e := by
+        have h1 := find?_of_mem_nodup m.diags hnd x (List.mem_of_getElem? hxk') (-d.1) hxo'
+        rw [hfind] at h1
+        exact (Option.some.inj h1).symm
+      -- same element at two different indices contradicts distinct offsets
+      have hkl : k < m.diags.length := (List.getElem?_eq_some_iff.mp hxk').1
+      have hel : ei < m.diags.length := (List.getElem?_eq_some_iff.mp he).1
+      have h2 : (m.diags.map (·.1))[k]'(by simpa using hkl) = (m.diags.map (·.1))[ei]'(by simpa using hel) := by
+        simp only [List.getElem_map]
+        have a1 := (List.getElem?_eq_some_iff.mp hxk').2
+        have a2 := (List.getElem?_eq_some_iff.mp he).2
+        rw [a1, a2, hxe]
+      have := (List.Nodup.getElem_inj_iff hnd).mp h2
+      omega
+    simp only [hany, Bool.false_eq_true, if_false, hfind] at hok
+    have := List.all_eq_true.mp hok (j - (max 0 d.1).toNat) (List.mem_range.mpr hlen)
+    rw [hcol] at this
+    have hmir : j - (max 0 d.1).toNat + (max 0 e.1).toNat = ((j : Int) - d.1).toNat := by omega
+    rw [hmir] at this
+    simpa [exactConjEq] using this
+theorem beq_neg_swap (a b : Int) : (a == -b) = (b == -a) := by
+  by_cases h : b = -a
+  · have h2 : a = -b := by omega
+    rw [beq_iff_eq.mpr h2, beq_iff_eq.mpr h]
+  · have h2 : a ≠ -b := by omega
+    rw [beq_eq_false_iff_ne.mpr h2, beq_eq_false_iff_ne.mpr h]
+
+theorem ishermDia_all (m : Dia R) (hsq : m.rows = m.cols) :
+    ishermDia exactConjEq exactIsZero m = true ↔
+      ∀ di d, m.diags[di]? = some d → diagOk exactConjEq exactIsZero m di d = true := by
+  unfold ishermDia
+  rw [if_neg (not_not.mpr hsq), List.all_eq_true]
+  constructor
+  · intro h di d hd
+    have hlt : di < m.diags.length := (List.getElem?_eq_some_iff.mp hd).1
+    have := h di (List.mem_range.mpr hlt)
+    rw [hd] at this
+    exact this
+  · intro h di hdi
+    have hlt : di < m.diags.length := List.mem_range.mp hdi
+    rw [List.getElem?_eq_getElem hlt]
+    exact h di _ (List.getElem?_eq_getElem hlt)
+
+/-- **`isherm_dia` answers "Hermitian" only for Hermitian matrices** … -/
+theorem ishermDia_sound (m : Dia R) (hwf : m.SquareWF) (h : ishermDia exactConjEq exactIsZero m = true)
+    (i j : Nat) (hi : i < m.rows) (hj : j < m.rows) : m.abs i j = star (m.abs j i) := by
+  have hall := (ishermDia_all m hwf.1).mp h
+  obtain ⟨hsq, hnd, hrg⟩ := id hwf
+  rw [Dia.abs_find m hnd i j, Dia.abs_find m hnd j i]
+  by_cases hij : i = j
+  · subst hij
+    cases hf : m.diags.find? (fun d => d.1 == (i : Int) - (i : Int)) with
+    | none => simp
+    | some d =>
+      simp only []
+      have hmem := List.mem_of_find?_eq_some hf
+      have hd0 : d.1 = 0 := by
+        have := List.find?_some hf
+        simp only [beq_iff_eq] at this
+        omega
+      obtain ⟨di, hdi⟩ := List.getElem?_of_mem hmem
+      have hok := hall di d hdi
+      unfold diagOk at hok
+      simp only [hd0, if_true] at hok
+      have := List.all_eq_true.mp hok i (List.mem_range.mpr (by omega))
+      simpa [exactConjEq] using this
+  · cases hf : m.diags.find? (fun d => d.1 == (j : Int) - (i : Int)) with
+    | none =>
+      cases hg : m.diags.find? (fun d => d.1 == (i : Int) - (j : Int)) with
+      | none => simp
+      | some e =>
+        simp only []
+        have hmem := List.mem_of_find?_eq_some hg
+        have he : e.1 = (i : Int) - (j : Int) := by
+          have := List.find?_some hg
+          simpa using this
+        obtain ⟨ei, hei⟩ := List.getElem?_of_mem hmem
+        have hspec := diagOk_spec m hwf ei e hei (by omega) (hall ei e hei) i hi (by omega) (by omega)
+        have hnone : m.diags.find? (fun x => x.1 == -e.1) = none := by
+          have : -e.1 = (j : Int) - (i : Int) := by omega
+          rw [this]; exact hf
+        rw [hspec.1 hnone, star_zero]
+    | some d =>
+      have hmemd := List.mem_of_find?_eq_some hf
+      have hd : d.1 = (j : Int) - (i : Int) := by
+        have := List.find?_some hf
+        simpa using this
+      obtain ⟨di, hdi⟩ := List.getElem?_of_mem hmemd
+      have hspecd := diagOk_spec m hwf di d hdi (by omega) (hall di d hdi) j hj (by omega) (by omega)
+      cases hg : m.diags.find? (fun d => d.1 == (i : Int) - (j : Int)) with
+      | none =>
+        simp only []
+        have hnone : m.diags.find? (fun x => x.1 == -d.1) = none := by
+          have : -d.1 = (i : Int) - (j : Int) := by omega
+          rw [this]; exact hg
+        rw [hspecd.1 hnone, star_zero]
+      | some e =>
+        simp only []
+        have hmeme := List.mem_of_find?_eq_some hg
+        have he : e.1 = (i : Int) - (j : Int) := by
+          have := List.find?_some hg
+          simpa using this
+        obtain ⟨ei, hei⟩ := List.getElem?_of_mem hmeme
+        have hspece := diagOk_spec m hwf ei e hei (by omega) (hall ei e hei) i hi (by omega) (by omega)
+        have hne : di ≠ ei := by
+          intro heq
+          rw [heq, hei] at hdi
+          have : e = d := Option.some.inj hdi
+          rw [this] at he
+          omega
+        have hcol1 : ((j : Int) - d.1).toNat = i := by omega
+        have hcol2 : ((i : Int) - e.1).toNat = j := by omega
+        rcases Nat.lt_or_gt_of_ne hne with hlt | hgt
+        · have := hspecd.2 e ei hei (by omega) hlt
+          rw [hcol1] at this
+          exact this
+        · have := hspece.2 d di hdi (by omega) hgt
+          rw [hcol2] at this
+          rw [this, star_star]
+
+/-- … **and for every Hermitian matrix** (exact arithmetic, any stored order of the diagonals) -/
+theorem ishermDia_complete (m : Dia R) (hwf : m.SquareWF)
+    (H : ∀ i j, i < m.rows → j < m.rows → m.abs i j = star (m.abs j i)) :
+    ishermDia exactConjEq exactIsZero m = true := by
+  obtain ⟨hsq, hnd, hrg⟩ := id hwf
+  rw [ishermDia_all m hsq]
+  intro di d hdi
+  have hmem : d ∈ m.diags := List.mem_of_getElem? hdi
+  have hb := hrg d hmem
+  unfold diagOk
+  by_cases ho : d.1 = 0
+  · simp only [ho, if_true]
+    rw [List.all_eq_true]
+    intro c hc
+    have hc' : c < m.rows := by have := List.mem_range.mp hc; omega
+    have hH := H c c hc' hc'
+    have hfind := find?_of_mem_nodup m.diags hnd d hmem ((c : Int) - (c : Int)) (by omega)
+    rw [Dia.abs_find m hnd c c, hfind] at hH
+    simpa [exactConjEq] using hH
+  · simp only [ho, if_false]
+    have hfun : (fun (e : Int × (Nat → R)) => d.1 == -e.1) = (fun e => e.1 == -d.1) := by
+      funext e; exact beq_neg_swap _ _
+    rw [hfun]
+    split
+    · rfl
+    · have hcols : (m.rows : Int) = m.cols := by exact_mod_cast hsq
+      cases hg : m.diags.find? (fun e => e.1 == -d.1) with
+      | some e =>
+        simp only []
+        rw [List.all_eq_true]
+        intro c hc
+        have hc' := List.mem_range.mp hc
+        have he : e.1 = -d.1 := by
+          have := List.find?_some hg
+          simpa using this
+        have hmeme := List.mem_of_find?_eq_some hg
+        -- the entry in row i, column j and its mirror image
+        have hjlt : c + (max 0 d.1).toNat < m.rows := by omega
+        have hilt : ((((c + (max 0 d.1).toNat : Nat) : Int) - d.1).toNat) < m.rows := by omega
+        have hH := H (((c + (max 0 d.1).toNat : Nat) : Int) - d.1).toNat (c + (max 0 d.1).toNat) hilt hjlt
+        have hf1 := find?_of_mem_nodup m.diags hnd d hmem
+          (((c + (max 0 d.1).toNat : Nat) : Int) - (((((c + (max 0 d.1).toNat : Nat) : Int) - d.1).toNat : Nat) : Int)) (by omega)
+        have hf2 := find?_of_mem_nodup m.diags hnd e hmeme
+          ((((((c + (max 0 d.1).toNat : Nat) : Int) - d.1).toNat : Nat) : Int) - ((c + (max 0 d.1).toNat : Nat) : Int)) (by omega)
+        rw [Dia.abs_find m hnd, Dia.abs_find m hnd, hf1, hf2] at hH
+        have hmir : c + (max 0 e.1).toNat = (((c + (max 0 d.1).toNat : Nat) : Int) - d.1).toNat := by omega
+        rw [hmir]
+        simpa [exactConjEq] using hH
+      | none =>
+        simp only []
+        rw [List.all_eq_true]
+        intro c hc
+        have hc' := List.mem_range.mp hc
+        have hjlt : c + (max 0 d.1).toNat < m.rows := by omega
+        have hilt : ((((c + (max 0 d.1).toNat : Nat) : Int) - d.1).toNat) < m.rows := by omega
+        have hH := H (((c + (max 0 d.1).toNat : Nat) : Int) - d.1).toNat (c + (max 0 d.1).toNat) hilt hjlt
+        have hf1 := find?_of_mem_nodup m.diags hnd d hmem
+          (((c + (max 0 d.1).toNat : Nat) : Int) - (((((c + (max 0 d.1).toNat : Nat) : Int) - d.1).toNat : Nat) : Int)) (by omega)
+        have hf2 : m.diags.find? (fun x => x.1 == ((((((c + (max 0 d.1).toNat : Nat) : Int) - d.1).toNat : Nat) : Int) - ((c + (max 0 d.1).toNat : Nat) : Int))) = none := by
+          have : ((((((c + (max 0 d.1).toNat : Nat) : Int) - d.1).toNat : Nat) : Int) - ((c + (max 0 d.1).toNat : Nat) : Int)) = -d.1 := by omega
+          rw [this]; exact hg
+        rw [Dia.abs_find m hnd, Dia.abs_find m hnd, hf1, hf2] at hH
+        simpa [exactIsZero] using hH
+
+/-- **`isherm_dia` decides Hermiticity** (tolerance taken to zero): for a square matrix stored by diagonals with
+distinct offsets inside the matrix, in *any* stored order, the kernel's loop returns true exactly when every entry is
+the conjugate of its mirror image. -/
+theorem ishermDia_iff (m : Dia R) (hwf : m.SquareWF) :
+    ishermDia exactConjEq exactIsZero m = true ↔
+      ∀ i j, i < m.rows → j < m.rows → m.abs i j = star (m.abs j i) :=
+  ⟨fun h i j hi hj => ishermDia_sound m hwf h i j hi hj, ishermDia_complete m hwf⟩
+
+/-- a matrix that is not square is never reported Hermitian -/
+theorem ishermDia_nonsquare (m : Dia R) (h : m.rows ≠ m.cols) : ishermDia exactConjEq exactIsZero m = false := by
+  unfold ishermDia; rw [if_pos h]
+end diaHermThm
 
 /-- **a specialisation constructed by inserting conversions computes the same operation**: if the
 registered implementation refines `f` on the meanings and every converter preserves the meaning, so
